@@ -62,13 +62,15 @@ static void judge(report& r, std::string const& id, sz calls, sz numbers_per_cal
         r.violate("draws-per-iteration", id, id + ": " + std::to_string(total) + " raw draws, predicted calls x numbers x usage = "
             + std::to_string(calls) + " x " + std::to_string(numbers_per_call) + " x " + std::to_string(usage));
     if (marks.size() != calls) { r.violate("wrong-number-of-calls", id, id + ": " + std::to_string(marks.size()) + " integrand calls"); return; }
+    // When the engine is advanced is the library's business (it may draw the numbers of several points ahead);
+    // what a call needs must have been drawn when the integrand sees the point, and nothing beyond the
+    // iteration's budget may ever be drawn.
     for (sz k = 0; k != marks.size(); ++k)
     {
-        std::uint64_t const before = k == 0 ? 0 : marks[k - 1];
-        if (marks[k] - before != per_call)
+        if (marks[k] < (k + 1) * per_call || marks[k] > calls * per_call)
         {
-            r.violate("draws-per-call-not-constant", id, id + ": call " + std::to_string(k) + " consumed " + std::to_string(marks[k] - before)
-                + " raw draws, expected " + std::to_string(per_call));
+            r.violate("draws-per-call-not-constant", id, id + ": when call " + std::to_string(k) + " ran, " + std::to_string(marks[k])
+                + " raw draws had been made; " + std::to_string(k + 1) + " calls need " + std::to_string((k + 1) * per_call) + ", the iteration " + std::to_string(calls * per_call));
             break;
         }
     }
